@@ -465,6 +465,7 @@ func c01OpRun(c *Case, rng *Rng, cfg c01OpCfg, initial, duringSync [][]c01Ev, af
 	// harness must not cause that itself.
 	monID := hk.GetConfig().OnKubernetesEvents[0].Monitor.Metadata.MonitorId
 	unlockDeadline := time.Now().Add(30 * time.Second)
+	stuckPolls := 0
 	for {
 		mon := op.KubeEventsManager.GetMonitor(monID)
 		if mon != nil {
@@ -476,6 +477,44 @@ func c01OpRun(c *Case, rng *Rng, cfg c01OpCfg, initial, duringSync [][]c01Ev, af
 			if all {
 				break
 			}
+		}
+		// Decided without a clock: the successful Synchronization run has exited (its exit file is there),
+		// and the task sits in "main" until its handler — which unlocks before it returns — has returned.
+		// "main" empty and the binding still locked (read in this order): nothing is left that would
+		// unlock it; the changes made meanwhile stay in the buffer for ever.
+		if q := op.TaskQueues.GetByName("main"); q != nil && q.Length() == 0 && mon != nil {
+			_, statics, _, buffered := kem.VerifMonitorState(mon)
+			locked := len(statics) > 0
+			for _, en := range statics {
+				locked = locked && !en
+			}
+			nbuf := 0
+			for _, n := range buffered {
+				nbuf += n
+			}
+			if stuckPolls++; locked && stuckPolls > 10 && (nbuf > 0 || !sentinel) {
+				ex, err := c01ReadExecs(logDir)
+				if err != nil {
+					c.Inconcl = "an execution is still running"
+					return
+				}
+				c.Op(fmt.Sprintf("cfg types=%s", joinStrs(cfg.types)), "ok")
+				c.Note("op:binding-never-unlocked")
+				c.Oracle("op-unlock synchronization-steps-over=1 unlocked=cms:0")
+				if cfg.group == "" && len(cfg.types) == 3 {
+					var view map[int]int
+					for _, e := range ex {
+						if strings.Contains(e.kinds, "S") && e.exit == 0 {
+							view = e.view
+							break
+						}
+					}
+					c.Oracle(fmt.Sprintf("replay view=%s delivered=- final=%s", c01StateStr(view), c01StateStr(truth)))
+				}
+				return
+			}
+		} else {
+			stuckPolls = 0
 		}
 		if time.Now().After(unlockDeadline) {
 			c.Inconcl = "binding was not unlocked after the successful Synchronization"
